@@ -570,7 +570,9 @@ class MappedDFTKernel(KernelEvalBase, XCEvalSerializable):
                     res[s][cond[s]] = 0.0
                     dres[s][:, cond[s]] = 0.0
             else:
-                cond = X0T[:, 0].sum(0) < rhocut
+                # X0T[s, 0] is the spin-scaled density nspin * rho_s, so the
+                # total density is the mean over the spin index
+                cond = X0T[:, 0].mean(0) < rhocut
                 res[..., cond] = 0.0
                 dres[..., cond] = 0.0
         if self.mode == "SEP":
